@@ -119,6 +119,15 @@ def value_class(op):
     return t
 
 
+def snake_data(op):
+    """Payload of a snake store: spelled out, or (for the very long ones) regenerated from a seed so that traces stay small."""
+    if 'vgen' in op:
+        import random as _r
+        seed, n = op['vgen']
+        return _r.Random(seed).randbytes(n)
+    return bytes.fromhex(op['v'])
+
+
 def lib_store(st, be, op, r=None):
     """(ok, result) of the store.  Argument objects (ExternalAddress, Address ...) are built on the way: an implementation that
     refuses an unstorable value in the argument's constructor rather than in the store has refused the store all the same."""
@@ -161,7 +170,7 @@ def _lib_store(st, be, op, r=None):
     if t == 'string':
         return call(b.store_string, op['v'])
     if t == 'snake_bytes':
-        return call(b.store_snake_bytes, bytes.fromhex(op['v']))
+        return call(b.store_snake_bytes, snake_data(op))
     if t == 'snake_string':
         if op.get('prefix'):
             return call(b.store_snake_string, op['v'], True)
@@ -598,7 +607,13 @@ class BuildWorld(HistoryWorld):
         if tail < 0.35:
             ln = rng.choice(SNAKE_LENS + [rng.randint(0, 400)])
             avail = room_bits // 8
-            if ln <= avail or room_refs >= 1:
+            if room_refs >= 1 and rng.random() < 0.04:
+                # 'of any length': as long as a chain of cells can be (1023 cells of 127 bytes below the one being built)
+                k = rng.choice([900, 985, 989, 990, 991, 1000, 1010, 1022, 1023])
+                op = {'op': 'store', 'b': bidx, 't': 'snake_bytes', 'vgen': [rng.getrandbits(32), avail + 127 * k - rng.choice([0, 0, 1, 126])]}
+                q.append(op)
+                items.append(op)
+            elif ln <= avail or room_refs >= 1:
                 if rng.random() < 0.5:
                     op = {'op': 'store', 'b': bidx, 't': 'snake_bytes', 'v': bytes(rng.getrandbits(8) for _ in range(ln)).hex()}
                 else:
@@ -721,8 +736,12 @@ class BuildWorld(HistoryWorld):
                     q.append({'op': 'load', 's': len(st.slices), 't': 'ref'})
                 q.append(dict(base, t='slice', s=len(st.slices)))
             else:
-                ln = rem // 8 + rng.choice([0, 1, 200])
-                q.append(dict(base, t='snake_bytes', v=bytes(rng.getrandbits(8) for _ in range(ln)).hex()))
+                if rng.random() < 0.06:
+                    k = rng.choice([989, 990, 1000, 1023, 1023, 1024, 1025])
+                    q.append(dict(base, t='snake_bytes', vgen=[rng.getrandbits(32), rem // 8 + 127 * k - rng.choice([0, 1, 126])]))
+                else:
+                    ln = rem // 8 + rng.choice([0, 1, 200])
+                    q.append(dict(base, t='snake_bytes', v=bytes(rng.getrandbits(8) for _ in range(ln)).hex()))
             return
         if aim == 'range':
             t = rng.choice(['uint', 'int', 'var_uint', 'var_int', 'coins', 'address'])
@@ -1061,9 +1080,20 @@ class BuildWorld(HistoryWorld):
 
     def _store_snake(self, st, be, op, ctx, rem_bits, rem_refs):
         t = op['t']
-        data = bytes.fromhex(op['v']) if t == 'snake_bytes' else (b'\x00' if op.get('prefix') else b'') + op['v'].encode()
+        data = snake_data(op) if t == 'snake_bytes' else (b'\x00' if op.get('prefix') else b'') + op['v'].encode()
         avail = rem_bits // 8
-        must_refuse = len(data) > avail and rem_refs < 1
+        # the tail is a chain of 127-byte cells; the cell being built sits one level above it and may be at most 1023 deep
+        tail_cells = max(0, -(-(len(data) - avail) // 127))
+        # (a tail of exactly 1024 cells can itself be built - it is 1023 deep - and referencing it is like store_ref of a 1023-deep
+        # cell: the store may go through, the limit bites at end_cell; from 1025 cells on the tail cannot exist)
+        must_refuse = (len(data) > avail and rem_refs < 1) or tail_cells > 1024
+        if tail_cells == 1024 and not must_refuse:
+            lib_store(st, be, op)
+            self._resync_builder(st, be)
+            ctx.probe('snake-whose-tail-is-1023-deep')
+            return
+        if tail_cells >= 900:
+            ctx.probe('snake-chain-of-%s-cells' % ('900..989' if tail_cells < 990 else '990..1023' if tail_cells <= 1023 else '1024+'))
         if len(data) > avail:
             ctx.probe('snake-overflows-into-ref')
         if must_refuse:
@@ -1075,7 +1105,7 @@ class BuildWorld(HistoryWorld):
         ctx.obs(ok)
         if must_refuse:
             if ok and c07:
-                self.V(ctx, 'accepted-invalid', 'store_' + t, 'capacity-refs', 'snake needing a 5th reference was accepted')
+                self.V(ctx, 'accepted-invalid', 'store_' + t, 'capacity-refs' if tail_cells <= 1024 else 'depth', 'a snake needing %s was accepted' % ('a 5th reference' if tail_cells <= 1024 else 'a chain of %d cells' % tail_cells))
             self._resync_builder(st, be)
             return
         if not ok:
